@@ -48,7 +48,7 @@ def c18_joint(op, impl, model, stats):
     proved bound `allocDyn <= w * (len + 1)` (theorem dyn_alloc_bound, for schemas with mwp=1).
     - model side, re-checked on every case: cost <= w * (len + 1) whenever mwp = 1 (an instance of the theorem
       evaluated by the driver: a failure means the driver and the proved definitions have come apart);
-    - successful decode: used <= 4096 + S + 512 * cost, S = 768*sw + 64*sw^2 a constant of the SCHEMA (sw = its node count;
+    - successful decode: used <= 4096 + S + 512 * cost, S = 768*sw + 64*sw^2 + (len+1)*128*sw, constants of the SCHEMA times at most the input length (sw = its node count;
       struct / variant levels cost a map node each and the enum arms clone the variant's sub-schema)  (a serde_json Value is 32 bytes, a BTreeMap leaf ~632 bytes for
       >= 3 counted units, Vec growth at most doubles; the constant is schema-independent);
     - failed decode: used <= 4096 + 512 * cost + 512 * len (the model does not count what a failing sub-decode
@@ -59,7 +59,10 @@ def c18_joint(op, impl, model, stats):
     used, sw, cost, mwp, w = int(mi.group(1)), int(mi.group(2)), int(mm.group(1)), int(mm.group(2)), int(mm.group(3))
     # schema-only constant: one map node and the field names per struct / variant level, and the sub-schema
     # clones of the enum arms (quadratic for nested enums); independent of the input
-    schema_const = 768 * sw + 64 * sw * sw
+    hexarg0 = op.rsplit(" ", 1)[-1]
+    n0 = (len(hexarg0) - 1) // 2 if hexarg0.startswith("x") else 0
+    # (the clone happens once per decoded enum value, each consuming at least its index byte)
+    schema_const = 768 * sw + 64 * sw * sw + (n0 + 1) * 128 * sw
     hexarg = op.rsplit(" ", 1)[-1]
     n = (len(hexarg) - 1) // 2 if hexarg.startswith("x") else 0
     stats["dynde_cases"] = stats.get("dynde_cases", 0) + 1
